@@ -1,5 +1,6 @@
 //! unit: u02
-//! properties: C02 C08 C04 C14
+//! properties: C02 C08 C04 C14 C11
+//! note: also run for C11: the code it constrains lies inside mechanisms those properties name (a change made there for their sake must meet these clauses too)
 //! note: forward admission arithmetic (fee and CLTV) and the timing lemma over the extracted constants
 //! trusted: R15 (statement slicing): should_broadcast_holder_commitment_txn scans hash maps through a function-local macro_rules!; the unit extracts the go-on-chain test of scan_commitment! verbatim (both inequalities) as a function of (htlc, direction, height, preimage known); the scan itself is dropped and not claimed
 //! trusted: R15/R18 (deep slice + captures): should_broadcast_holder_commitment_txn: the statement computing htlc_outbound inside scan_commitment! and the second argument of the macro's three invocations (our commitment, the counterparty's current and previous commitment), combined into one function of (htlc, which kind of commitment)
